@@ -27,6 +27,9 @@ type c20Scenario struct {
 	Failure   string `json:"failure"` // none, dial, write_at_pass, eof_after_pass, refusal
 	Reconnect int    `json:"reconnects"`
 	Traffic   int    `json:"traffic"`
+	// Wipe: an application REGISTER handler clears ("clear") or replaces ("change") Config().Pass as soon as
+	// registration has begun, while the server is slow to read, so the PASS line is still in flight
+	Wipe string `json:"wipe"`
 }
 
 const c20Mask = "PASS **************"
@@ -47,6 +50,7 @@ func genC20(t *rapid.T) *c20Scenario {
 		Failure:   rapid.SampledFrom([]string{"none", "none", "dial", "write_at_pass", "eof_after_pass", "refusal", "eof_at_connect", "eof_at_connect"}).Draw(t, "failure"),
 		Reconnect: rapid.IntRange(0, 2).Draw(t, "reconnects"),
 		Traffic:   rapid.IntRange(0, 6).Draw(t, "traffic"),
+		Wipe:      rapid.SampledFrom([]string{"", "", "clear", "change"}).Draw(t, "wipe"),
 	}
 	return sc
 }
@@ -69,7 +73,19 @@ func c20Session(sc *c20Scenario, pass string) (recs []logRec, passOnWire int, v 
 	defer tc.shutdown()
 	disc := make(chan struct{}, 8)
 	tc.C.HandleFunc(client.DISCONNECTED, func(*client.Conn, *client.Line) { disc <- struct{}{} })
+	if sc.Wipe != "" {
+		tc.C.HandleFunc(client.REGISTER, func(c *client.Conn, _ *client.Line) {
+			if sc.Wipe == "clear" {
+				c.Config().Pass = ""
+			} else {
+				c.Config().Pass = "next-servers-password"
+			}
+		})
+	}
 	for cycle := 0; cycle <= sc.Reconnect; cycle++ {
+		if sc.Wipe != "" && !sc.ViaTo {
+			tc.C.Config().Pass = pass // (the handler above wiped it during the previous registration)
+		}
 		passIdx := 1 // PASS is the first line written ...
 		if sc.CapNeg {
 			passIdx = 2 // ... or the second, after CAP LS
@@ -82,6 +98,11 @@ func c20Session(sc *c20Scenario, pass string) (recs []logRec, passOnWire int, v 
 		case "eof_at_connect":
 			// the server hangs up the moment it has accepted: the teardown races with registration
 			tc.S.Prepare(func(c *ircsim.Conn) { c.EOF() })
+		default:
+			if sc.Wipe != "" {
+				// a server that is slow to read: nothing is written until Connect has returned
+				tc.S.Prepare(func(c *ircsim.Conn) { c.Gate(true) })
+			}
 		}
 		var err error
 		if sc.ViaTo && pass != "" {
@@ -101,6 +122,7 @@ func c20Session(sc *c20Scenario, pass string) (recs []logRec, passOnWire int, v 
 			return nil, 0, violationf("C20", "Connect: %v", err)
 		}
 		conn := tc.conn()
+		conn.Gate(false)
 		switch sc.Failure {
 		case "write_at_pass", "eof_at_connect":
 			// the connection dies on the injected fault
